@@ -261,7 +261,7 @@ pub fn prop() -> Prop<Case> {
             "'reported' is lenient: Err, a Monitor error, or a tracing event at ERROR level",
             "zero-length leftovers of killed writes are not part of the healthy side",
         ],
-        cases: |t| t.pick(320, 6000),
+        cases: |t| t.pick(320, 4000),
         strategy,
         run,
         enumerate: None,
